@@ -169,7 +169,19 @@ func (vc *FnVC) call(c ssa.CallInstruction, val *ssa.Call) {
 	if vc.atomicOp(cc, val) {
 		return
 	}
-	if vc.sortSlice(cc) {
+	if isSortSlice(cc) {
+		// a named site like any other call ("Slice" / "SliceStable"): asserts before, ghost updates and rely assumptions after
+		name := calleeShort(cc)
+		ord := vc.siteOrdinal(c, name)
+		vc.callOrd[name] = ord
+		var args []TV
+		for _, a := range cc.Args {
+			args = append(args, TV{t: vc.val(a), ty: a.Type()})
+		}
+		vc.siteAsserts(name, ord, vc.cur, args, c.Pos())
+		vc.sortSlice(cc)
+		vc.cur = vc.applyCallGhostsX(name, args, nil, vc.cur, nil)
+		vc.siteAssumes(name, ord, args, nil)
 		return
 	}
 	sig := cc.Signature()
@@ -467,7 +479,7 @@ func (vc *FnVC) siteOrdinal(c ssa.CallInstruction, name string) int {
 		for _, b := range vc.fn.Blocks {
 			for _, in := range b.Instrs {
 				if ci, ok := in.(ssa.CallInstruction); ok {
-					if _, isBuiltin := ci.Common().Value.(*ssa.Builtin); isBuiltin {
+					if bi, isBuiltin := ci.Common().Value.(*ssa.Builtin); isBuiltin && bi.Name() != "append" {
 						continue
 					}
 					n := calleeShort(ci.Common())
@@ -487,6 +499,19 @@ func (vc *FnVC) siteOrdinal(c ssa.CallInstruction, name string) int {
 
 // sortSlice: sort.Slice / sort.SliceStable permute the elements of the given slice in place and touch nothing else
 // (the comparison closure is assumed to be free of side effects): only that slice type's element component is havoc'd.
+func isSortSlice(cc *ssa.CallCommon) bool {
+	fn, ok := cc.Value.(*ssa.Function)
+	if !ok || fn.Pkg == nil || fn.Pkg.Pkg.Path() != "sort" || (fn.Name() != "Slice" && fn.Name() != "SliceStable") || len(cc.Args) == 0 {
+		return false
+	}
+	mi, ok := cc.Args[0].(*ssa.MakeInterface)
+	if !ok {
+		return false
+	}
+	_, ok = mi.X.Type().Underlying().(*types.Slice)
+	return ok
+}
+
 func (vc *FnVC) sortSlice(cc *ssa.CallCommon) bool {
 	fn, ok := cc.Value.(*ssa.Function)
 	if !ok || fn.Pkg == nil || fn.Pkg.Pkg.Path() != "sort" || (fn.Name() != "Slice" && fn.Name() != "SliceStable") || len(cc.Args) == 0 {
@@ -500,7 +525,24 @@ func (vc *FnVC) sortSlice(cc *ssa.CallCommon) bool {
 	if !ok {
 		return false
 	}
-	vc.cur = vc.cur.havoc(map[string]bool{vc.e.arrComp(st.Elem()): true}, nil)
+	// sort.Slice permutes s[0:len(s)] in place: the backing array of s changes only inside that window, and the new window
+	// is a permutation of the old one (p: old index -> new index, q: new index -> old index). Order is left unspecified.
+	comp := vc.e.arrComp(st.Elem())
+	sl := vc.val(mi.X)
+	oldArr := vc.cur.get(comp)
+	es := vc.e.sortOf(st.Elem())
+	oldInner := vc.define(vc.e.fresh("sort_old"), fmt.Sprintf("(Array Int %s)", es), app("select", oldArr, app("sref", sl)))
+	newInner := vc.declare(vc.e.fresh("sort_new"), fmt.Sprintf("(Array Int %s)", es))
+	pf, qf := vc.e.fresh("sort_p"), vc.e.fresh("sort_q")
+	vc.emit(fmt.Sprintf("(declare-fun %s (Int) Int)\n(declare-fun %s (Int) Int)", pf, qf))
+	off, n := app("soff", sl), app("slen", sl)
+	in := func(i Term) Term { return and(app("<=", "0", i), app("<", i, n)) }
+	vc.assume("true", fmt.Sprintf("(forall ((i Int)) (! (=> %s (and %s (= (select %s (at %s (%s i))) (select %s (at %s i))))) :pattern ((%s i)) :pattern ((select %s (at %s i)))))",
+		in("i"), in(app(pf, "i")), newInner, off, pf, oldInner, off, pf, oldInner, off))
+	vc.assume("true", fmt.Sprintf("(forall ((j Int)) (! (=> %s (and %s (= (select %s (at %s j)) (select %s (at %s (%s j)))))) :pattern ((%s j)) :pattern ((select %s (at %s j)))))",
+		in("j"), in(app(qf, "j")), newInner, off, oldInner, off, qf, qf, newInner, off))
+	vc.assume("true", fmt.Sprintf("(forall ((x Int)) (! (=> (or (< x %s) (>= x (+ %s %s))) (= (select %s x) (select %s x))) :pattern ((select %s x))))", off, off, n, newInner, oldInner, newInner))
+	vc.cur = vc.cur.update(comp, app("store", oldArr, app("sref", sl), newInner))
 	vc.trustedUsed["library: sort.Slice/SliceStable only permute the elements of the slice they are given (comparison closure without side effects)"] = true
 	return true
 }
@@ -685,29 +727,6 @@ func (vc *FnVC) applyCallGhostsX(name string, args, results []TV, m *Mem, extra 
 func (vc *FnVC) blockResolver(b *ssa.BasicBlock, m *Mem) func(string) (TV, bool) {
 	limit := vc.curIdx
 	return func(name string) (TV, bool) {
-		// a variable that lives in a cell (captured by a closure, or address-taken) denotes the cell's current content
-		for _, fv := range vc.fn.FreeVars {
-			if fv.Name() == name {
-				lv := vc.lvOf(fv)
-				return TV{t: vc.loadLV(lv, m), ty: lv.typ}, true
-			}
-		}
-		for _, blk := range vc.fn.Blocks {
-			for _, in := range blk.Instrs {
-				if a, ok := in.(*ssa.Alloc); ok && a.Comment == name && blk.Dominates(b) {
-					if _, defined := vc.vals[a]; !defined {
-						continue
-					}
-					if sv := vc.immutableCell(a); sv != nil {
-						if _, ok := vc.vals[sv]; ok || isConstOrParam(sv) {
-							return TV{t: vc.val(sv), ty: sv.Type()}, true
-						}
-					}
-					lv := vc.lvOf(a)
-					return TV{t: vc.loadLV(lv, m), ty: lv.typ}, true
-				}
-			}
-		}
 		for d := b; d != nil; d = d.Idom() {
 			binds := vc.debug[d]
 			for i := len(binds) - 1; i >= 0; i-- {
@@ -732,8 +751,40 @@ func (vc *FnVC) blockResolver(b *ssa.BasicBlock, m *Mem) func(string) (TV, bool)
 				}
 			}
 		}
+		// no mention of the name before this point: a cell variable (captured or address-taken) by name
+		if tv, ok := vc.cellVar(name, b, m); ok {
+			return tv, true
+		}
 		return TV{}, false
 	}
+}
+
+// cellVar: a variable that lives in a cell (captured by a closure, or address-taken) denotes the cell's current content
+// in state m; b is the block the expression is evaluated in (the cell's allocation must dominate it).
+func (vc *FnVC) cellVar(name string, b *ssa.BasicBlock, m *Mem) (TV, bool) {
+	for _, fv := range vc.fn.FreeVars {
+		if fv.Name() == name {
+			lv := vc.lvOf(fv)
+			return TV{t: vc.loadLV(lv, m), ty: lv.typ}, true
+		}
+	}
+	for _, blk := range vc.fn.Blocks {
+		for _, in := range blk.Instrs {
+			if a, ok := in.(*ssa.Alloc); ok && a.Comment == name && blk.Dominates(b) {
+				if _, defined := vc.vals[a]; !defined {
+					continue
+				}
+				if sv := vc.immutableCell(a); sv != nil {
+					if _, ok := vc.vals[sv]; ok || isConstOrParam(sv) {
+						return TV{t: vc.val(sv), ty: sv.Type()}, true
+					}
+				}
+				lv := vc.lvOf(a)
+				return TV{t: vc.loadLV(lv, m), ty: lv.typ}, true
+			}
+		}
+	}
+	return TV{}, false
 }
 
 func isConstOrParam(v ssa.Value) bool {
@@ -784,7 +835,21 @@ func (vc *FnVC) builtin(b *ssa.Builtin, cc *ssa.CallCommon, val *ssa.Call) {
 			set(t0)
 		}
 	case "append":
+		// a named site ("append", ordinals in source order): asserts before, ghost updates after
+		var args []TV
+		for _, a := range cc.Args {
+			args = append(args, TV{t: vc.val(a), ty: a.Type()})
+		}
+		ord := 0
+		if val != nil {
+			ord = vc.siteOrdinal(val, "append")
+			vc.callOrd["append"] = ord
+			vc.siteAsserts("append", ord, vc.cur, args, cc.Pos())
+		}
 		vc.appendOp(cc, val)
+		if val != nil {
+			vc.cur = vc.applyCallGhostsX("append", args, []TV{{t: vc.val(val), ty: val.Type()}}, vc.cur, nil)
+		}
 	case "copy":
 		vc.copyOp(cc, val)
 	case "delete":
